@@ -93,8 +93,8 @@ def gen_script(rnd, nranks, big):
     nitems = rnd.choice([3, 5, 8, 12, 20, 32] if not big else [8, 16, 32, 48, 64])
     spread = rnd.choice([1, 1, 7, 1000])
     universe = sorted(rnd.sample(range(0, nitems * spread + 1), nitems))
-    kindmode = rnd.choice(["u", "x", "x", "mixed"])
-    nep = rnd.choice([1, 2, 2, 3])
+    kindmode = rnd.choice(["u", "x", "x", "mixed", "u-then-x"])
+    nep = rnd.choice([1, 2, 2, 3]) if kindmode != "u-then-x" else rnd.choice([2, 3])
     toks, steps = [], []
     did = 0
     fam_used = []
@@ -108,7 +108,12 @@ def gen_script(rnd, nranks, big):
         ops = []
         conc = rnd.random() < 0.35
         for (a, b) in E:
-            kind = kindmode if kindmode != "mixed" else rnd.choice(["u", "x"])
+            if kindmode == "mixed":
+                kind = rnd.choice(["u", "x"])
+            elif kindmode == "u-then-x":
+                kind = "u" if ep == 0 else "x"
+            else:
+                kind = kindmode
             if conc and rnd.random() < 0.3:
                 ops.append((kind, "*", a, b))
             else:
@@ -283,8 +288,11 @@ def oracle_run(res, case, script, o, nranks):
     summaries = []
     last_roots = None
     nmerged = 0
+    exact_cb = 0
     for st in script["steps"]:
         if st[0] == "ops":
+            kinds = {k for (k, _, _, _) in st[1]}
+            before_merges = len(known) - len(uf.classes())
             for (k, r, a, b) in st[1]:
                 known.update((a, b))
                 mult = nranks if r == "*" else 1
@@ -293,6 +301,10 @@ def oracle_run(res, case, script, o, nranks):
                 uf.find(a); uf.find(b)
                 if k == "x":
                     issued_exec[(a, b)] = issued_exec.get((a, b), 0) + mult
+            if kinds == {"x"} and exact_cb is not None:
+                exact_cb += (len(known) - len(uf.classes())) - before_merges
+            elif "x" in kinds:
+                exact_cb = None   # an epoch mixing both kinds: only the upper bound is known from outside
         elif st[0] == "dump":
             did = st[1]
             rows = o["dumps"].get(did, [])
@@ -310,8 +322,10 @@ def oracle_run(res, case, script, o, nranks):
                     fail(res, f"dump {did}: parent {p} of {x} is not an item", "dset-parent-missing", case, {"item": x, "parent": p})
                     return summaries
                 if p != x and not ((rk, x) < (ent[p][0], p)):
-                    fail(res, f"dump {did}: (rank,item) does not increase from {x} to its parent {p}", "dset-lex", case,
-                         {"item": x, "rank": rk, "parent": p, "parent_rank": ent[p][0]})
+                    # not a clause of the property itself (any acyclic structure would do): the proof's invariant no longer holds
+                    res.corr_failures.append({"relation": "lex_increasing on the real parent map at a barrier",
+                                              "what": f"dump {did}: (rank,item) does not increase from {x} (rank {rk}) to its parent {p} (rank {ent[p][0]})",
+                                              "case": dict(case, dump=did)})
             # termination / roots
             roots = {}
             for x in ent:
@@ -386,9 +400,10 @@ def oracle_run(res, case, script, o, nranks):
                  {"callbacks": cbs[:40]})
             break
     ncomp = len(uf.classes())
-    if script["kindmode"] == "x":
-        if len(cbs) != len(known) - ncomp:
-            fail(res, f"{len(cbs)} callbacks, but items - components = {len(known) - ncomp}", "dset-callback-count", case, {"callbacks": cbs[:40]})
+    if exact_cb is not None:
+        # every root merge of an epoch that only issues async_union_and_execute runs exactly one callback
+        if len(cbs) != exact_cb:
+            fail(res, f"{len(cbs)} callbacks, but the exec-only epochs merged {exact_cb} times (items - components)", "dset-callback-count", case, {"callbacks": cbs[:40]})
     elif len(cbs) > len(known) - ncomp:
         fail(res, f"{len(cbs)} callbacks exceed items - components = {len(known) - ncomp}", "dset-callback-count", case)
     return summaries
@@ -448,7 +463,7 @@ def corr_multi(res, case, script, o, summaries, mline, checks):
         if sec["numsets"] != s["nroots"]:
             res.corr_failures.append({"relation": "DSet.numSets == number of real roots", "what": f"dump {did}: {sec['numsets']} vs {s['nroots']}", "case": case})
             ok = False
-    if secs and script["kindmode"] == "x" and len(secs[-1]["cbs"]) != len(o["cbs"]):
+    if secs and script["kindmode"] in ("x", "u-then-x") and len(secs[-1]["cbs"]) != len(o["cbs"]):
         res.corr_failures.append({"relation": "number of callbacks is schedule independent", "what": f"model {len(secs[-1]['cbs'])} real {len(o['cbs'])}", "case": case})
         ok = False
     for did, ans in checks:
@@ -498,7 +513,22 @@ def script_from_tokens(tokens):
     if ops:
         steps.append(("ops", ops))
     km = "x" if kinds == {"x"} else ("u" if kinds == {"u"} else "mixed")
+    if km == "mixed" and all(len({k for (k, _, _, _) in st[1]}) == 1 for st in steps if st[0] == "ops"):
+        km = "u-then-x"
     return {"tokens": list(tokens), "steps": steps, "universe": sorted(universe), "kindmode": km, "families": []}
+
+
+def model_call(lines):
+    """the driver binary can be momentarily absent while somebody relinks it: retry briefly"""
+    import time
+    last = None
+    for _ in range(6):
+        try:
+            return C.model("dset", lines)
+        except (FileNotFoundError, PermissionError, OSError, RuntimeError) as ex:
+            last = ex
+            time.sleep(2.0)
+    raise last
 
 
 def evaluate(binary, case, script, model_ok, res):
@@ -531,7 +561,7 @@ def evaluate(binary, case, script, model_ok, res):
             lines.append(f"run rand {case['model_seed']} " + " ".join(mt))
             for s in summaries:
                 lines.append("check " + " ".join(f"{x}:{v[0]}:{v[1]}" for x, v in sorted(s["ent"].items())))
-        out = C.model("dset", lines)
+        out = model_call(lines)
         if nranks == 1:
             corr_fifo(res, case, script, o, summaries, out[0])
         else:
